@@ -213,6 +213,15 @@ pub fn gen_cfg(id: &str, tier: Tier, variant: u64) -> GenCfg {
             g
         }
         "C03" | "C04" => GenCfg::new(if variant % 2 == 0 { Mode::Full } else { Mode::Safe }, ops),
+        // fully recorded histories that also give allocations up through
+        // try_unwrap / make_mut (world_cfg allows the consuming ops for C09)
+        "C09" if variant % 4 == 3 => {
+            let mut g = GenCfg::new(Mode::Full, ops);
+            g.weights.consume = 2;
+            g.weights.unique_root = 3;
+            g.weights.adopt_slot = 8;
+            g
+        }
         "C09" => GenCfg::new(Mode::Full, ops),
         // elided unadopt combined with try_unwrap / make_mut (both give an
         // allocation up without going through Drop)
@@ -335,6 +344,7 @@ pub fn world_cfg(id: &str, mode: Mode) -> Cfg {
         strict_loopback: false,
         shallow_clone: false,
         clone_panics: 0,
+        allow_consume: id == "C09",
         clone_reentrant: false,
         default_ctor: 0,
     }
